@@ -513,7 +513,8 @@ def search_conc(facts, tier, rng):
 # ============================================================================
 SCHED_CODE = {'IDec': 1, 'IInc': 2, 'ILoad': 3, 'IRetIfNe': 4, 'IRetIfEq': 5, 'IDestroyFree': 6, 'IGrant': 7, 'ICloneVal': 8, 'IDropHandle': 9, 'IUnknown': 0}
 SCHED_ORD = {'ORlx': 0, 'ORel': 1, 'OAcq': 2, 'OAcqRel': 3}
-SCHED_KIND = {0: 'clone', 1: 'read', 2: 'write', 3: 'ungrant', 4: 'move-out', 5: 'send', 6: 'start drop', 7: 'start try_unique', 8: 'start unwrap_or_clone', 9: 'step'}
+SCHED_KIND = {0: 'clone', 1: 'read', 2: 'write', 3: 'ungrant', 4: 'move-out', 5: 'send', 6: 'start drop', 7: 'start try_unique', 8: 'start unwrap_or_clone', 9: 'step',
+              10: 'start make_mut', 11: 'start get_mut', 12: 'start try_unwrap', 13: 'start is_unique'}
 def sched_enc_prog(instrs):
     out = []
     for i in instrs:
@@ -529,11 +530,14 @@ SCHED_PROFILES = {
     'unique': [[2, 4, 4, 3, 2, 4, 3, 6, 0, 16], [5, 4, 3, 2, 1, 8, 3, 5, 0, 14]],
     'unwrap': [[2, 4, 1, 1, 4, 4, 3, 2, 6, 18], [5, 3, 1, 1, 3, 8, 3, 2, 5, 14], [2, 3, 3, 2, 4, 4, 2, 5, 3, 16]],
 }
-def sched_gen(rng, profile, n, length):
+# free schedules also use make_mut (10), get_mut (11), try_unwrap (12), is_unique (13)
+SCHED_FREE_EXTRA = {'drops': [0, 0, 0, 1], 'unique': [4, 4, 2, 2], 'unwrap': [2, 1, 5, 1]}
+def sched_gen(rng, profile, n, length, free=False):
     W = rng.choice(SCHED_PROFILES[profile])
+    if free: W = W + SCHED_FREE_EXTRA[profile]
     labels = []
     for _ in range(length):
-        t = rng.randrange(n); k = rng.choices(range(10), weights=W)[0]
+        t = rng.randrange(n); k = rng.choices(range(len(W)), weights=W)[0]
         if k == 5: a = rng.randrange(n)
         elif k == 9: a = rng.randrange(0, 6) if rng.random() < 0.25 else 1000
         else: a = 0
@@ -645,7 +649,7 @@ def make_custom_sched(profile):
                     if (tag == 'f') == all(len(l) == 3 for l in ops[1:]): stream_cases.append((cid, ops))
                 for i in range(cnt):
                     n = rng.choice([2, 3, 3]); pay = rng.choice([0, 0, 1])
-                    stream_cases.append(('%s%d' % (tag, i), [[199, n, pay]] + sched_gen(rng, profile, n, rng.randrange(40, 400))))
+                    stream_cases.append(('%s%d' % (tag, i), [[199, n, pay]] + sched_gen(rng, profile, n, rng.randrange(40, 400), free=(tag == 'f'))))
         # the model accepts a sub-sequence of each guided raw stream and says what each accepted label looks like
         mobs = {}
         raw_guided = [c for c in guided if all(len(l) == 3 for l in c[1][1:])]
@@ -689,6 +693,12 @@ def make_custom_sched(profile):
                                  dict(kind='impl-counterexample', stream='sched', cfg=cfg, profile=prof, case=casemap.get(cid), observation='process died rc=%s' % rcode, stderr=err)))
             for l in stray[:2]:
                 problems.append(('stray', 'unexpected output line: ' + l[:300], dict(kind='unproved', stage='tie2-sched', line=l[:1000])))
+            if 'free_label_kinds' not in cov:
+                fk = {}
+                for cid, ops in free:
+                    for l in (iobs.get(cid) or []):
+                        if l and l[0] < 900: fk[SCHED_KIND.get(l[0], '?')] = fk.get(SCHED_KIND.get(l[0], '?'), 0) + 1
+                cov['free_label_kinds'] = fk
             noracle = 0; ncorr = 0; first_free_fail = None
             for cid, ops in real_guided + free:
                 io = iobs.get(cid)
